@@ -118,6 +118,11 @@ pub struct Cfg {
     /// false: `send`, true: `send_batchable` for all messages, then await the delivery futures in order
     pub batch: bool,
     pub seq: Vec<Msg>,
+    /// max-message-size the listener's receiving link announces (0 = none). The library's sender cuts a larger
+    /// message into chunks of this size (each ending a transfer series with more=true) before the frame encoder
+    /// cuts every chunk at max-frame-size: two splitters that have to agree on the more flag
+    #[serde(default)]
+    pub mms: u64,
 }
 
 impl Cfg {
@@ -126,9 +131,10 @@ impl Cfg {
     }
     fn short(&self) -> String {
         format!(
-            "mfs {}/{} windows client {} listener {} credit {:?} snd {} rcv {} buffers {} {} seq {:?}",
+            "mfs {}/{}{} windows client {} listener {} credit {:?} snd {} rcv {} buffers {} {} seq {:?}",
             self.mfs,
             self.mfs_l,
+            if self.mms > 0 { format!(" receiver max-message-size {}", self.mms) } else { String::new() },
             self.cw,
             self.lw,
             self.credit,
@@ -268,8 +274,9 @@ async fn listener_main(io: End, cfg: Cfg, sh: Sh) {
     let mut session = step!("session accept", sacc.accept(&mut conn).await);
     let lacc = LinkAcceptor::builder()
         .supported_sender_settle_modes(SupportedSenderSettleModes::All)
-        .supported_receiver_settle_modes(SupportedReceiverSettleModes::Both)
-        .build();
+        .supported_receiver_settle_modes(SupportedReceiverSettleModes::Both);
+    let lacc = if cfg.mms > 0 { lacc.max_message_size(cfg.mms) } else { lacc };
+    let lacc = lacc.build();
     let mut r = match step!("link accept", lacc.accept(&mut session).await) {
         LinkEndpoint::Receiver(r) => r,
         LinkEndpoint::Sender(_) => {
@@ -916,11 +923,28 @@ fn lattice() -> Vec<Cfg> {
                                         if snd == 2 {
                                             mixed_flags(&mut seq);
                                         }
-                                        v.push(Cfg { mfs, mfs_l: mfs, cw, lw, credit, snd, rcv, buf, batch, seq });
+                                        v.push(Cfg { mfs, mfs_l: mfs, cw, lw, credit, snd, rcv, buf, batch, seq, mms: 0 });
                                     }
                                 }
                             }
                         }
+                    }
+                }
+            }
+        }
+    }
+    // the receiving link announces a max-message-size between the frame size and the size of the multi-frame
+    // messages: the sending link cuts them into chunks which the frame encoder cuts again
+    for mms in [700u64, 1000] {
+        for (cw, lw) in [(2u32, 2u32), (5000, 5000)] {
+            for snd in 0..3u8 {
+                for batch in [false, true] {
+                    for seq in sequences() {
+                        let mut seq = seq;
+                        if snd == 2 {
+                            mixed_flags(&mut seq);
+                        }
+                        v.push(Cfg { mfs: 512, mfs_l: 512, cw, lw, credit: Credit::Auto(200), snd, rcv: (snd % 2), buf: 2, batch, seq, mms });
                     }
                 }
             }
@@ -936,7 +960,7 @@ fn lattice() -> Vec<Cfg> {
                         if snd == 2 {
                             mixed_flags(&mut seq);
                         }
-                        v.push(Cfg { mfs, mfs_l, cw: 2, lw: 2, credit, snd, rcv: (snd % 2), buf: 2, batch, seq });
+                        v.push(Cfg { mfs, mfs_l, cw: 2, lw: 2, credit, snd, rcv: (snd % 2), buf: 2, batch, seq, mms: 0 });
                     }
                 }
             }
@@ -948,7 +972,7 @@ fn lattice() -> Vec<Cfg> {
 /// the small instances whose schedules are explored exhaustively (within the deviation bound)
 fn explored_instances() -> Vec<Cfg> {
     use Size::*;
-    let base = Cfg { mfs: 512, mfs_l: 512, cw: 1, lw: 1, credit: Credit::Auto(1), snd: 1, rcv: 0, buf: 1, batch: false, seq: vec![] };
+    let base = Cfg { mfs: 512, mfs_l: 512, cw: 1, lw: 1, credit: Credit::Auto(1), snd: 1, rcv: 0, buf: 1, batch: false, seq: vec![], mms: 0 };
     let c = |f: &dyn Fn(&mut Cfg)| {
         let mut x = base.clone();
         f(&mut x);
@@ -1002,7 +1026,7 @@ fn pressure_instances() -> Vec<Cfg> {
             for credit in [Credit::Auto(200), Credit::Auto(1)] {
                 for snd in [0u8, 1] {
                     for batch in [false, true] {
-                        v.push(Cfg { mfs: 512, mfs_l: 512, cw: 5000, lw, credit, snd, rcv: 0, buf, batch, seq: vec![m(Big, 1), m(B10, 3), m(Big, 0)] });
+                        v.push(Cfg { mfs: 512, mfs_l: 512, cw: 5000, lw, credit, snd, rcv: 0, buf, batch, seq: vec![m(Big, 1), m(B10, 3), m(Big, 0)], mms: 0 });
                     }
                 }
             }
